@@ -131,6 +131,41 @@ def _param_arg(sig: inspect.Signature, p: dict) -> str | None:
     return None
 
 
+def assignments(sig: inspect.Signature, params: list[dict], limit: int = 12) -> list[dict]:
+    """All plausible maps {location:name -> argument}.  A parameter whose normalised name is unique maps to the argument with that
+    normalised name.  Parameters that share a normalised name (same name in two locations, user-id / user_id) compete for the
+    arguments whose name, with or without a numeric de-collision suffix, normalises to it; every injective assignment is returned
+    and the caller accepts the call if SOME assignment puts every value on the wire under its own name and location (the property
+    does not say which argument belongs to which of two same-named parameters)."""
+    import itertools
+
+    groups: dict[str, list[dict]] = {}
+    for p in params:
+        groups.setdefault(_norm(p["name"]), []).append(p)
+    fixed: dict[str, str | None] = {}
+    open_groups = []
+    for w, ps in groups.items():
+        if len(ps) == 1:
+            fixed[f"{ps[0]['in']}:{ps[0]['name']}"] = _param_arg(sig, ps[0])
+        else:
+            args = [n for n in sig.parameters if _norm(n) == w or _norm(re.sub(r"_\d+$", "", n)) == w]
+            open_groups.append((ps, args))
+    outs = [dict(fixed)]
+    for ps, args in open_groups:
+        nxt = []
+        keys = [f"{p['in']}:{p['name']}" for p in ps]
+        pads = args + [None] * max(0, len(ps) - len(args))
+        for perm in itertools.permutations(pads, len(ps)):
+            for base in outs:
+                nxt.append({**base, **dict(zip(keys, perm))})
+                if len(nxt) >= limit:
+                    break
+            if len(nxt) >= limit:
+                break
+        outs = nxt or outs
+    return outs
+
+
 def check(res: genrun.GenResult, case: dict) -> tuple[list[Violation], list[tuple[dict, bool]]]:
     import httpx
 
@@ -154,12 +189,31 @@ def check(res: genrun.GenResult, case: dict) -> tuple[list[Violation], list[tupl
                 hints = typing.get_type_hints(getattr(fn, "__func__", fn))
             except Exception:
                 hints = {}
+            best: list[Violation] | None = None
+            record = None
+            for assign in assignments(sig, o["params"]):
+                v_try, rec = _attempt(s, fn, sig, hints, o, call, assign, schemas)
+                record = record or rec
+                if best is None or len(v_try) < len(best):
+                    best = v_try
+                if not v_try:
+                    break
+            if record is not None:
+                accounted.append(record)
+            viols.extend(best or [])
+    return viols, accounted
+
+
+def _attempt(s, fn, sig, hints, o, call, assign, schemas):
+    viols: list[Violation] = []
+    if True:
+        if True:
             kwargs = {}
             supplied: dict[str, tuple[dict, object]] = {}
             skip = False
             for p in o["params"]:
                 key = f"{p['in']}:{p['name']}"
-                arg = _param_arg(sig, p)
+                arg = assign.get(key)
                 if arg is None:
                     if key in call["params"]:
                         viols.append(Violation(("parameter_cannot_be_supplied", p["in"]), f"{call['method']} {call['path']}: {key} has no argument in {sig}"))
@@ -172,7 +226,7 @@ def check(res: genrun.GenResult, case: dict) -> tuple[list[Violation], list[tupl
                 elif sig.parameters[arg].default is inspect.Parameter.empty:
                     kwargs[arg] = None  # optional in the spec but positional in the signature
             if skip:
-                continue
+                return viols, None
             body = call.get("body")
             body_arg = None
             if body is not None:
@@ -182,13 +236,13 @@ def check(res: genrun.GenResult, case: dict) -> tuple[list[Violation], list[tupl
                 body_arg = next((c for c in cand if c in sig.parameters), None)
                 if body_arg is None:
                     viols.append(Violation(("body_cannot_be_supplied", media), f"{call['method']} {call['path']}: no body argument in {sig}"))
-                    continue
+                    return viols, None
                 if media == "application/json":
                     ann = hints.get(body_arg)
                     try:
                         kwargs[body_arg] = _body_value(body["doc"], ann, s)
                     except Exception as e:
-                        continue  # cannot build the argument with the package's own converter: C03's business
+                        return viols, None  # cannot build the argument with the package's own converter: C03's business
                 elif media == "application/x-www-form-urlencoded":
                     kwargs[body_arg] = dict(body["doc"])
                 elif media == "multipart/form-data":
@@ -203,17 +257,17 @@ def check(res: genrun.GenResult, case: dict) -> tuple[list[Violation], list[tupl
             n_set_opt = sum(1 for k, (p, _) in supplied.items() if not (p.get("required") or p["in"] == "path"))
             locs = {p["in"] for p in o["params"]}
             nontriv = (len(locs) >= 2 or body is not None) and n_set_opt >= 1 and n_set_opt < n_opt
-            accounted.append(({"method": call["method"], "path": call["path"], "params": call["params"], "body": body}, nontriv))
+            record = ({"method": call["method"], "path": call["path"], "params": call["params"], "body": body}, nontriv)
             out = s.call(fn, kwargs)
             loc_sig = "+".join(sorted(locs)) or "none"
             if len(out.requests) != 1:
                 et = type(out.exc).__name__ if out.exc else "none"
                 culprit = _culprit(out.exc, supplied, body)
                 viols.append(Violation(("no_single_request", str(len(out.requests)), et, culprit), f"{call['method']} {call['path']} kwargs={_short(kwargs)}: {out.exc!r}"[:700]))
-                continue
+                return viols, record
             req = out.requests[0]
             viols.extend(_compare(req, o, call, supplied, body, schemas))
-    return viols, accounted
+    return viols, record
 
 
 def _short(kw) -> str:
